@@ -128,14 +128,22 @@ where
     }
 
     let t2_cost = state.t2.current_total_cost();
+    let mut displaced = None;
     if state.t1.current_total_cost() + t2_cost >= self.capacity {
-      state.replace(self.capacity, key_in_b2);
+      displaced = state.replace(self.capacity, key_in_b2);
     }
 
     // Insert the new item into T1.
     state.t1.push_front(key.clone(), cost);
 
-    AdmissionDecision::Admit
+    // `replace` moved a resident key to a ghost list: the policy no longer
+    // tracks it as resident and `evict` can never nominate it again, so the
+    // cache must be told to remove it now. Returning plain `Admit` left the
+    // entry in the map for good and the cache over capacity.
+    match displaced {
+      Some((victim, _)) => AdmissionDecision::AdmitAndEvict(vec![victim]),
+      None => AdmissionDecision::Admit,
+    }
   }
 
   fn on_remove(&self, key: &K) {
